@@ -8,7 +8,7 @@ Proof.
 Qed.
 
 Lemma l3_step2_other s o :
-  match o with L3 _ | NewStd2 _ _ | NewEnum2 _ _ | NewMux2 _ _ _ => False | _ => True end →
+  match o with L3 _ | NewStd2 _ _ | NewEnum2 _ _ | NewMux2 _ _ _ | EnumClone _ | EvalClone _ => False | _ => True end →
   l3 (step2 s o).1 = l3 s.
 Proof.
   destruct o; try done; intros _; cbn [step2].
@@ -53,16 +53,52 @@ Proof.
   - intros x u H. by rewrite lookup_empty in H.
 Qed.
 
-Theorem inv2_step s o : Inv2 s → op_ok2 s o → Inv2 (step2 s o).1.
+(* ---- Clone: a composite of constructors and AddValue on the fresh enum ------------------------------ *)
+Lemma inv2_l3 s o : Inv2 s → op_ok3 (l3 s) o → Inv2 (lift3 s o).1.
 Proof.
   intros [H3 Hr] Hok. split.
-  - destruct o as [o|nm ot|nm oe|nm c g| | | | | | | |]; try (rewrite l3_step2_other by done; exact H3).
+  - unfold lift3. pose proof (inv3_step (l3 s) o H3 Hok). by destruct (step3 (l3 s) o).
+  - unfold lift3. pose proof (next3_mono (l3 s) o). destruct (step3 (l3 s) o) as [t r] eqn:Hs. cbn in *. by apply regok_lift.
+Qed.
+
+Lemma new_enum_value_fresh (s : state2) n i :
+  evals (base (l3 (lift3 s (L1 (NewEnumValue n i))).1)) !! next2 s = Some (mkEval n i None).
+Proof. unfold lift3. cbn. unfold new_enum_value, alloc, ok, next2. cbn. by rewrite lookup_insert. Qed.
+
+Lemma inv2_clone_value e' s0 acc iv : Inv2 acc → Inv2 (clone_value e' s0 acc iv).
+Proof.
+  intros Hi. unfold clone_value. destruct (evals s0 !! iv.2) as [V|]; [|exact Hi].
+  assert (Inv2 (lift3 acc (L1 (NewEnumValue (v_name V) (v_index V)))).1) as Hi1 by (by apply inv2_l3).
+  apply inv2_l3; [done|]. intros V' HV'. rewrite new_enum_value_fresh in HV'. injection HV' as <-. by left.
+Qed.
+
+Lemma inv2_fold_clone e' s0 l : ∀ acc, Inv2 acc → Inv2 (fold_left (clone_value e' s0) l acc).
+Proof. induction l as [|iv l IH]; intros acc Hacc; [exact Hacc|]. cbn [fold_left]. apply IH. by apply inv2_clone_value. Qed.
+
+Lemma inv2_enum_clone s e : Inv2 s → Inv2 (enum_clone s e).1.
+Proof.
+  intros Hi. unfold enum_clone. destruct (enums (base (l3 s)) !! e) as [E|]; [|exact Hi].
+  unfold ok2. cbn [fst]. apply inv2_fold_clone. by apply inv2_l3.
+Qed.
+
+Lemma inv2_eval_clone s v : Inv2 s → Inv2 (eval_clone s v).1.
+Proof.
+  intros Hi. unfold eval_clone. destruct (evals (base (l3 s)) !! v) as [V|]; [|exact Hi]. by apply inv2_l3.
+Qed.
+
+Theorem inv2_step s o : Inv2 s → op_ok2 s o → Inv2 (step2 s o).1.
+Proof.
+  intros Hi Hok.
+  destruct (match o with EnumClone _ | EvalClone _ => true | _ => false end) eqn:Hcl.
+  { destruct o; try discriminate Hcl; [by apply inv2_enum_clone|by apply inv2_eval_clone]. }
+  destruct Hi as [H3 Hr]. split.
+  - destruct o as [o|nm ot|nm oe|nm c g| | | | | | | | | |]; try discriminate Hcl; try (rewrite l3_step2_other by done; exact H3).
     + cbn [step2]. unfold lift3. pose proof (inv3_step (l3 s) o H3 Hok). by destruct (step3 (l3 s) o).
     + cbn [step2]. rewrite l3_new_signal. by apply inv3_step.
     + cbn [step2]. rewrite l3_new_signal. by apply inv3_step.
     + cbn [step2]. unfold new_mux2. repeat (case_match; [done|]). unfold lift3.
       pose proof (inv3_step (l3 s) (L1 NewOther) H3 I). by destruct (step3 (l3 s) (L1 NewOther)).
-  - destruct o as [o|nm ot|nm oe|nm c g|m [x|] f|m k|m|x nm|u [x|] f ids|u k|u g|u]; cbn [step2].
+  - destruct o as [o|nm ot|nm oe|nm c g|m [x|] f|m k|m|x nm|u [x|] f ids|u k|u g|u|e|v]; try discriminate Hcl; cbn [step2].
     + unfold lift3. pose proof (next3_mono (l3 s) o). destruct (step3 (l3 s) o) as [t r] eqn:Hs. cbn in *. by apply regok_lift.
     + apply regok_new_signal; [|done]. intros t. apply new_std_next.
     + apply regok_new_signal; [|done]. intros t. apply new_enum_next.
